@@ -45,7 +45,7 @@ func runB1(c *core.Ctx) {
 		c.Undecided("jitdec/_IC,_IL,_IP", token.NoPos, "register variables not found")
 		return
 	}
-	for _, tg := range []decTargets{{rel, "_Assembler", nil, 1}, {rel, "_ValueDecoder", map[string]bool{"compile": true}, 0}} {
+	for _, tg := range []decTargets{{rel, "_Assembler", nil, 0}, {rel, "_ValueDecoder", map[string]bool{"compile": true}, 0}} {
 		a := newAsmCtx(p, tg.rel, tg.recv)
 		for _, fd := range sortedFuncDecls(a.methods()) {
 			if tg.only != nil && !tg.only[fd.Name.Name] {
@@ -63,9 +63,24 @@ func runB1(c *core.Ctx) {
 			c.Analysed(fn)
 			nloads := 0
 			reported := map[string]bool{}
+			// a handler starts with no byte proven; the few whose first load relies on the
+			// preceding IR instruction (derived, see B3) are analysed with that one byte and
+			// the debt is discharged over the emitted IR programs by B3
+			init := tg.init
+			if tg.only == nil {
+				if tab, _ := decAvailTable(p); tab != nil {
+					op := strings.TrimPrefix(fd.Name.Name, "_asm")
+					if alt, ok := handlerNameExceptions[op]; ok {
+						op = alt
+					}
+					if tab[op].known && tab[op].req == 1 {
+						init = 1
+					}
+				}
+			}
 			for _, sq := range seqs {
 				g := buildSeqCFG(sq.Ops)
-				in := boundFlow(g, tg.init, IC, IL)
+				in := boundFlow(g, init, IC, IL)
 				for i, o := range g.ops {
 					if o.Kind != "Emit" || o.Mnem == "LEAQ" {
 						continue
@@ -210,12 +225,20 @@ type bstate struct {
 	reached bool
 	avail   int64
 	rel     map[string]int64
+	slot    map[string]int64 // private frame slot -> bytes proven available at the input position it holds
+	ravail  map[string]int64 // register (not tied to IC) -> bytes proven available at the position it holds
 }
 
 func (a bstate) clone() bstate {
-	n := bstate{reached: a.reached, avail: a.avail, rel: map[string]int64{}}
+	n := bstate{reached: a.reached, avail: a.avail, rel: map[string]int64{}, slot: map[string]int64{}, ravail: map[string]int64{}}
 	for k, v := range a.rel {
 		n.rel[k] = v
+	}
+	for k, v := range a.slot {
+		n.slot[k] = v
+	}
+	for k, v := range a.ravail {
+		n.ravail[k] = v
 	}
 	return n
 }
@@ -240,14 +263,57 @@ func meetInto(a *bstate, b bstate) bool {
 			ch = true
 		}
 	}
+	for _, pr := range [][2]map[string]int64{{a.slot, b.slot}, {a.ravail, b.ravail}} {
+		for k, v := range pr[0] {
+			w, ok := pr[1][k]
+			switch {
+			case !ok:
+				delete(pr[0], k)
+				ch = true
+			case w < v:
+				pr[0][k] = w
+				ch = true
+			}
+		}
+	}
 	return ch
 }
 
+func sameCC(jmp, cc string) bool {
+	j := strings.TrimPrefix(jmp, "J")
+	norm := func(x string) string {
+		switch x {
+		case "EQ", "Z":
+			return "E"
+		case "NZ":
+			return "NE"
+		}
+		return x
+	}
+	return norm(j) == norm(cc)
+}
+
+func hasRel(m map[string]int64, k string) bool { _, ok := m[k]; return ok }
+
 func boundFlow(g *seqCFG, init int64, IC, IL string) []bstate {
 	in := make([]bstate, len(g.ops)+1)
-	in[0] = bstate{reached: true, avail: init, rel: map[string]int64{}}
+	in[0] = bstate{reached: true, avail: init, rel: map[string]int64{}, slot: map[string]int64{}, ravail: map[string]int64{}}
 	work := []int{0}
 	seeded := false
+	cmovPre := map[int]bstate{}
+	// frame slots whose address is taken (handed to a native by pointer) are never tracked
+	escaped := map[int64]bool{}
+	for _, o := range g.ops {
+		if o.Kind == "Emit" && o.Mnem == "LEAQ" && len(o.Ops) == 2 && o.Ops[0].Kind == "mem" && o.Ops[0].Reg == "SP" && o.Ops[0].Index == "" && o.Ops[0].DispOK {
+			escaped[o.Ops[0].Disp] = true
+		}
+	}
+	slotKey := func(x Operand) (string, bool) {
+		if x.Kind == "mem" && x.Reg == "SP" && x.Index == "" && x.DispOK && !escaped[x.Disp] {
+			return "slot:" + itoa(int(x.Disp)), true
+		}
+		return "", false
+	}
 	for len(work) > 0 || !seeded {
 		if len(work) == 0 {
 			// labels reached only through indirect jumps (jump tables, saved return
@@ -255,7 +321,7 @@ func boundFlow(g *seqCFG, init int64, IC, IL string) []bstate {
 			seeded = true
 			for i, o := range g.ops {
 				if o.Kind == "Link" && !in[i].reached {
-					in[i] = bstate{reached: true, avail: 0, rel: map[string]int64{}}
+					in[i] = bstate{reached: true, avail: 0, rel: map[string]int64{}, slot: map[string]int64{}, ravail: map[string]int64{}}
 					work = append(work, i)
 					seeded = false
 				}
@@ -274,8 +340,16 @@ func boundFlow(g *seqCFG, init int64, IC, IL string) []bstate {
 		o := g.ops[i]
 		fall := in[i].clone()
 		taken := in[i].clone()
+		if pre, ok := cmovPre[i]; ok && (o.Kind == "Sjmp" || o.Kind == "Xjmp") {
+			// `CMOVQcc r, IC; Jcc target`: the move happened exactly when the jump is taken
+			fall = pre.clone()
+		}
 		switch o.Kind {
 		case "Emit":
+			if strings.HasPrefix(o.Mnem, "CMOVQ") && len(o.Ops) == 2 && isReg(o.Ops[1], IC) && i+1 < len(g.ops) &&
+				(g.ops[i+1].Kind == "Sjmp" || g.ops[i+1].Kind == "Xjmp") && sameCC(g.ops[i+1].Mnem, strings.TrimPrefix(o.Mnem, "CMOVQ")) {
+				cmovPre[i+1] = in[i].clone()
+			}
 			if len(o.Ops) >= 1 && !nonWriting[o.Mnem] {
 				dst := o.Ops[len(o.Ops)-1]
 				if o.Mnem == "XCHGQ" {
@@ -288,8 +362,30 @@ func boundFlow(g *seqCFG, init int64, IC, IL string) []bstate {
 							}
 						}
 					}
+				} else if dst.Kind == "mem" {
+					// spill of IC (or of a register known to be IC+k) into a private frame slot
+					if sk, ok := slotKey(dst); ok {
+						src := o.Ops[0]
+						if o.Mnem == "MOVQ" && len(o.Ops) == 2 && src.Kind == "reg" && src.Reg == IC {
+							fall.slot[sk] = fall.avail
+						} else if k, known := fall.rel[src.Reg]; o.Mnem == "MOVQ" && len(o.Ops) == 2 && src.Kind == "reg" && known {
+							fall.slot[sk] = fall.avail - k
+						} else {
+							delete(fall.slot, sk)
+						}
+					} else if dst.Reg == "SP" && !dst.DispOK {
+						fall.slot = map[string]int64{}
+					}
+				} else if sk, isSlot := slotKey(o.Ops[0]); dst.Kind == "reg" && dst.Reg == IC && isSlot && o.Mnem == "MOVQ" && len(o.Ops) == 2 && hasRel(fall.slot, sk) {
+					// reload of the input position saved earlier: what was proven then still holds
+					fall.avail = fall.slot[sk]
+					if fall.avail < 0 {
+						fall.avail = 0
+					}
+					fall.rel = map[string]int64{}
 				} else if dst.Kind == "reg" {
 					src := o.Ops[0]
+					delete(fall.ravail, dst.Reg)
 					switch {
 					case dst.Reg == IC && len(o.Ops) == 2 && src.Kind == "imm" && src.ImmOK && (o.Mnem == "ADDQ" || o.Mnem == "SUBQ"):
 						d := src.Imm
@@ -314,7 +410,7 @@ func boundFlow(g *seqCFG, init int64, IC, IL string) []bstate {
 								fall.rel[r] -= k
 							}
 						} else {
-							fall.avail = 0
+							fall.avail = fall.ravail[src.Reg] // 0 when nothing is known about R
 							fall.rel = map[string]int64{}
 						}
 					case dst.Reg == IC:
@@ -352,6 +448,19 @@ func boundFlow(g *seqCFG, init int64, IC, IL string) []bstate {
 				} else if x.Kind == "reg" {
 					if kk, ok := in[i].rel[x.Reg]; ok && kk >= 0 {
 						k = kk
+					}
+				}
+				if k < 0 && x.Kind == "reg" && !isReg(x, IC) {
+					// a position held in a register that is not tied to IC (a native's return value)
+					switch o.Mnem {
+					case "JAE", "JNB", "JNC":
+						if fall.ravail[x.Reg] < 1 {
+							fall.ravail[x.Reg] = 1
+						}
+					case "JB", "JC":
+						if taken.ravail[x.Reg] < 1 {
+							taken.ravail[x.Reg] = 1
+						}
 					}
 				}
 				if k >= 0 {
